@@ -709,4 +709,10 @@ where
     pub fn verif_hamiltonian(&self) -> &TransformedHamiltonian<M, T> {
         &self.hamiltonian
     }
+
+    /// Verification hook: the five vectors `(x, grad_x, y, grad_y, velocity)` of the current state.
+    pub fn verif_state_vectors(&mut self) -> [Box<[f64]>; 5] {
+        let math = self.math.get_mut();
+        self.state.point().verif_vectors(math)
+    }
 }
